@@ -91,8 +91,8 @@ func (c *Ctx) csvxRun() *simpleVerdict {
 		return csvxMemo
 	}
 	var cfgs []csvConfig
-	for _, seps := range [][]rune{{','}, {';'}, {',', ';'}, {'\t'}} {
-		for _, qs := range [][]rune{{'"'}, {'\''}, {'"', '\''}} {
+	for _, seps := range [][]rune{{','}, {';'}, {',', ';'}, {'\t'}, {'、'}} {
+		for _, qs := range [][]rune{{'"'}, {'\''}, {'"', '\''}, {'«'}, {'「'}} {
 			for _, eol := range []string{"\n", "\r", "\r\n", "\n\r"} {
 				cfgs = append(cfgs, csvConfig{seps, qs, eol})
 			}
@@ -211,7 +211,7 @@ func (c *Ctx) csvxRun() *simpleVerdict {
 
 func init() {
 	register(&Rule{ID: "CSV.roundtrip", Floor: 1,
-		Doc: "the CSV tokenizer evaluated abstractly (NewCsvTokenizer, SetFieldSeparators, SetQuoteSymbols, SetDecodeStrings, TokenizeBuffer) on tables written per the statement: 48 configurations (separator sets × quote sets × LF/CR/CRLF/LFCR) × every field over {letter, separators, quotes, LF, CR, non-Latin} up to length 2 paired with every single-character field, in three table shapes: the rows and fields come back exactly",
+		Doc: "the CSV tokenizer evaluated abstractly (NewCsvTokenizer, SetFieldSeparators, SetQuoteSymbols, SetDecodeStrings, TokenizeBuffer) on tables written per the statement: 100 configurations (separator sets × quote sets × LF/CR/CRLF/LFCR) × every field over {letter, separators, quotes, LF, CR, non-Latin} up to length 2 paired with every single-character field, in three table shapes: the rows and fields come back exactly",
 		Run: func(c *Ctx) []*Obligation {
 			return emitSimple(c, "CSV.roundtrip", "csv.CsvTokenizer#table-roundtrip", c.Pos(c.MustFunc("csv", "", "NewCsvTokenizer").Pos()), c.csvxRun(), "tables round-trip")
 		}})
